@@ -38,6 +38,25 @@ theorem masked_eq_iff_prefix_eq (x y ones bits : Nat) (hx : x < 2^bits) (hy : y 
       rw [this]
     · simp [hi]
 
+
+/-- The low four bytes of a 16-byte CIDR mask of length ≥ 96 are the 4-byte mask of length − 96 (Go: `m = m[12:]`
+in `networkNumberAndMask`). -/
+theorem cidrMask_low32 (ones : Nat) (h1 : 96 ≤ ones) (h2 : ones ≤ 128) :
+    cidrMask ones 128 % 2^32 = cidrMask (ones - 96) 32 := by
+  apply Nat.eq_of_testBit_eq
+  intro i
+  rw [Nat.testBit_mod_two_pow, testBit_cidrMask, testBit_cidrMask]
+  have e : 32 - (ones - 96) = 128 - ones := by omega
+  rw [e]
+  by_cases a : i < 32 <;> by_cases b : 128 - ones ≤ i <;> simp [a, b]
+  all_goals omega
+
+/-- the 16-byte form `::ffff:a.b.c.d` of an IPv4 number -/
+theorem mapped_val (nn : Nat) (hn : nn < 2^32) :
+    (0xffff <<< 32 + nn) >>> 32 = 0xffff ∧ (0xffff <<< 32 + nn) % 2^32 = nn := by
+  simp only [Nat.shiftLeft_eq, Nat.shiftRight_eq_div_pow]
+  omega
+
 theorem xffDenied_false_all (P : Parsers) (r : Rules) (host : List Char) (xs : List (List Char))
     (h : xffDenied P r host xs = false) :
     ∀ x ∈ xs, trimSpace x ≠ host → ∀ ip, P.parseIP (stripZone (trimSpace x)) = some ip →
